@@ -4,6 +4,9 @@ package main
 
 import (
 	"fmt"
+	"os"
+	"path/filepath"
+	"reflect"
 	"runtime/debug"
 	"sort"
 	"strconv"
@@ -56,6 +59,23 @@ func TestVerifC17Gen(t *testing.T) {
 	}
 	if verifrt.WantCheck("C17.pad") {
 		c17Pad(t)
+	}
+}
+
+// c17FakeGo puts a `go` script first on PATH that answers
+// `go list -m --versions <module>` from lists; the returned func undoes it.
+func c17FakeGo(lists map[string][]string) func() {
+	dir, _ := os.MkdirTemp(os.Getenv("VERIF_TMP"), "c17go-")
+	for m, vs := range lists {
+		os.WriteFile(filepath.Join(dir, strings.ReplaceAll(m, "/", "_")+".versions"), []byte(strings.Join(vs, " ")), 0o644)
+	}
+	script := "#!/bin/sh\nif [ \"$1\" = list ] && [ \"$2\" = -m ]; then\n f=\"" + dir + "/$(printf %s \"$4\" | tr / _).versions\"\n if [ -f \"$f\" ]; then printf '%s ' \"$4\"; cat \"$f\"; echo; exit 0; fi\nfi\necho \"fake go: unsupported: $*\" >&2\nexit 1\n"
+	os.WriteFile(filepath.Join(dir, "go"), []byte(script), 0o755)
+	old := os.Getenv("PATH")
+	os.Setenv("PATH", dir+":"+old)
+	return func() {
+		os.Setenv("PATH", old)
+		os.RemoveAll(dir)
 	}
 }
 
@@ -117,10 +137,41 @@ func c17Generate(t *testing.T) {
 		rp := verifrt.CaseReplay(i, map[string]any{"records": fmt.Sprintf("%+v", recs)})
 		var ucfg interface{}
 		_ = ucfg
+		// (generate filters the lists it is handed in place: keep a pristine copy)
+		pristine := map[string][]string{}
+		for m, vs := range versionsForTesting {
+			pristine[m] = append([]string(nil), vs...)
+		}
 		cfg, err := generate(recs, pads)
 		if err != nil {
 			res.Violate("generate-failed", "generate failed on valid records: "+err.Error(), rp)
 			continue
+		}
+		if i%10 == 0 {
+			// the production path: the version lists come from the `go` command
+			// (a script first on PATH answering `go list -m --versions <module>`
+			// from the same lists), and the tool calls generate more than once
+			// per run: every call must give the same, correct answer
+			restore := c17FakeGo(pristine)
+			saved := versionsForTesting
+			versionsForTesting = nil
+			cfgA, errA := generate(recs, pads)
+			cfgB, errB := generate(recs, pads)
+			versionsForTesting = saved
+			restore()
+			res.Hit("production-path-twice")
+			if errA != nil || errB != nil {
+				res.Violate("generate-failed", fmt.Sprintf("generate through the go command failed on valid records: %v / %v", errA, errB), rp)
+				continue
+			}
+			if !reflect.DeepEqual(cfgA, cfg) {
+				res.Violate("generate-differs-via-go-command", "generate gives another configuration when the version lists come from the go command than when they are injected", rp)
+				continue
+			}
+			if !reflect.DeepEqual(cfgA, cfgB) {
+				res.Violate("generate-not-repeatable", "a second generate call in the same process gives another configuration than the first", rp)
+			}
+			cfg = cfgB // judged below like any other result
 		}
 		byName := map[string]int{}
 		for pi, p := range cfg.Programs {
@@ -232,7 +283,7 @@ func c17Generate(t *testing.T) {
 			res.Sample(map[string]any{"case": i, "records": fmt.Sprintf("%+v", recs)})
 		}
 	}
-	res.Require("stack-with-depth", "stack-type-without-depth", "multi-min", "smallest-min-not-first")
+	res.Require("production-path-twice", "stack-with-depth", "stack-type-without-depth", "multi-min", "smallest-min-not-first")
 	if err := res.Write(); err != nil {
 		t.Fatal(err)
 	}
